@@ -1,6 +1,7 @@
 SPECIFICATION GenSpec
 CONSTANTS
   Kinds = {"none", "raise", "value", "coro", "cororaise", "gencoro", "future", "swallow", "stop"}
+  SecondKinds = {"none", "coro", "future"}
   Durations = {0, 1, 3}
   Timeouts = {0, 2, 999}
   MaxCalls = 2
